@@ -1603,3 +1603,137 @@ func reverseDedupGroup(c *Ctx, rule string) {
 	}
 	c.Decide(aware && len(st) > 0, rule, key(fn, "lastKey-dedup#direction-aware"), fn.Pos(), len(st)+1, "version de-duplication depends on the scan direction", "TxnIterator.advance keeps the first version it meets for a user key in both directions: a reverse scan returns the oldest visible version of every key and resurrects keys whose newest version is a tombstone")
 }
+
+// orphanSSTGroup: table ids are handed out from one counter seeded with the highest id the
+// manifest references, and table creation adopts a file that already exists.  A table file the
+// manifest does not reference (crash between table write and manifest edit) must therefore be
+// removed, or the counter seeded above it, before ids are handed out again.
+func orphanSSTGroup(c *Ctx, rule string) {
+	c.Rule(rule, "levelManager.build enumerates the .sst files present in the work directory (utils.LoadIDMap / FS.ReadDir) and removes those the manifest does not reference (FS.Remove behind the failed lookup in the referenced-id set), or seeds maxFID from the ids on disk")
+	fn := c.Fn("lsm", "levelManager.build")
+	if fn == nil {
+		return
+	}
+	lists := Calls(fn, false, Named("utils.LoadIDMap"))
+	lists = append(lists, Calls(fn, false, func(cc *ssa.CallCommon) bool { return cc.IsInvoke() && cc.Method.Name() == "ReadDir" })...)
+	rms := Calls(fn, false, func(cc *ssa.CallCommon) bool { return cc.IsInvoke() && cc.Method.Name() == "Remove" })
+	guarded := false
+	for _, r := range rms {
+		// behind the miss edge of a comma-ok map lookup
+		for _, b := range fn.Blocks {
+			ifi := ifOf(b)
+			if ifi == nil {
+				continue
+			}
+			if ex, ok := ifi.Cond.(*ssa.Extract); ok && ex.Index == 1 {
+				if lk, ok := ex.Tuple.(*ssa.Lookup); ok && lk.CommaOk && EdgeDominates(b, b.Succs[1], r.Block()) {
+					guarded = true
+				}
+			}
+		}
+	}
+	c.Decide(len(lists) >= 1 && guarded, rule, key(fn, "removes-unreferenced-sst"), fn.Pos(), len(lists)+len(rms)+1, "tables present on disk but absent from the manifest are removed while the levels are rebuilt", "levelManager.build does not look at the .sst files actually present: an orphan left by a crash keeps its id, the id is handed out again, the new table adopts the stale file and part of a later flush is lost")
+}
+
+// walBatchAtomicityGroup: C10 demands that no transaction is partially applied after a crash.
+// The WAL is replayed record by record, so a request is atomic only if it reaches the WAL as one
+// record or is closed by a marker that replay waits for.
+func walBatchAtomicityGroup(c *Ctx, rule string) {
+	c.Rule(rule, "a write request is one unit in the WAL: memTable.setBatch hands wal.AppendRecords one record per request (not one per entry), or replay (LSM.openMemTable) applies entries only when it meets a batch/commit marker record type")
+	sb := c.Fn("lsm", "memTable.setBatch")
+	om := c.Fn("lsm", "LSM.openMemTable")
+	if sb == nil || om == nil {
+		return
+	}
+	// records built inside a loop over the entries
+	perEntry := false
+	for _, ci := range Calls(sb, false, Named("kv.EncodeEntry", "kv.EncodeEntryTo", "wal.EncodeRecord")) {
+		if blockInLoop(ci.Block()) {
+			perEntry = true
+		}
+	}
+	AllInstrs(sb, false, func(in ssa.Instruction) {
+		if st, ok := in.(*ssa.Store); ok {
+			if ia, ok := st.Addr.(*ssa.IndexAddr); ok && strings.Contains(ia.X.Type().String(), "wal.Record") && blockInLoop(st.Block()) {
+				perEntry = true
+			}
+		}
+		if fa, ok := in.(*ssa.FieldAddr); ok {
+			if o, f, _ := FieldOf(fa); o == "wal.Record" && f == "Payload" && blockInLoop(fa.Block()) {
+				perEntry = true
+			}
+		}
+	})
+	// a marker record type consulted by replay
+	marker := false
+	for _, name := range []string{"RecordTypeBatch", "RecordTypeBatchEnd", "RecordTypeCommit", "RecordTypeTxnEnd"} {
+		if c.P.LookupObj("wal", name) != nil {
+			marker = true
+		}
+	}
+	c.Decide(!perEntry || marker, rule, key(sb, "request-is-one-wal-unit"), sb.Pos(), 3,
+		ifs(marker, "replay waits for a batch marker", "one WAL record per request"),
+		"memTable.setBatch appends one WAL record per entry and there is no batch/commit marker record type; openMemTable replays record by record, so a WAL prefix that ends inside a request (memtable rotation in the middle of LSM.SetBatch, or the 256 KiB buffered writer spilling mid-batch) is recovered as a partially applied transaction")
+}
+
+// vlogSegmentKnownGroup: recovery (valueLog.reconcileManifest) deletes value-log segments above
+// the highest fid the manifest knows.  A segment must therefore be recorded in the manifest
+// before a durable WAL record can point into it.
+func vlogSegmentKnownGroup(c *Ctx, rule string) {
+	c.Rule(rule, "a value-log segment is recorded in the manifest before any WAL record that points into it can become durable: between valueLog.write (which may rotate to a new segment) and applyRequests' WAL append, the commit path logs the new head/segment (LogValueLogHead / LogValueLogUpdate) whenever the file id changed; otherwise reconcileManifest's removal of segments above the highest known fid deletes referenced data")
+	cw := c.Fn("", "DB.commitWorker")
+	vw := c.Fn("", "valueLog.write")
+	if cw == nil || vw == nil {
+		return
+	}
+	logs := deepMatcher(Named("lsm.(*LSM).LogValueLogHead", "lsm.(*LSM).LogValueLogUpdate", "manifest.(*Manager).LogValueLogHead", "manifest.(*Manager).LogValueLogUpdate"), Module, 3)
+	inWrite := len(Calls(vw, true, logs)) > 0
+	// or in commitWorker between vlog.write and applyRequests
+	between := false
+	ws := Calls(cw, false, Named("NoKV.(*valueLog).write"))
+	as := Calls(cw, false, Named("NoKV.(*DB).applyRequests"))
+	for _, l := range Calls(cw, false, logs) {
+		if Named("NoKV.(*DB).applyRequests")(l.Common()) {
+			continue
+		}
+		for _, w := range ws {
+			for _, a := range as {
+				if Dominates(w.(ssa.Instruction), l.(ssa.Instruction)) && Dominates(l.(ssa.Instruction), a.(ssa.Instruction)) {
+					between = true
+				}
+			}
+		}
+	}
+	c.Decide(inWrite || between, rule, key(cw, "segment-logged-before-wal-append"), cw.Pos(), len(ws)+len(as)+1, "a rotated-to segment is in the manifest before the batch's WAL records", "the manifest learns a new value-log segment only in updateHead, after writeToLSM appended (and possibly flushed) WAL records that point into it: a crash in between leaves durable pointers into a segment that reconcileManifest deletes on reopen (key present, value unreadable)")
+}
+
+// segmentIDAllocatorGroup: WAL segment ids and memtable/SST ids share one id space.
+func segmentIDAllocatorGroup(c *Ctx, rule string) {
+	c.Rule(rule, "only one component allocates WAL segment ids: every wal.switchSegmentLocked(id, truncate=true) gets its id from the LSM's file-id counter (NewMemtable → SwitchSegment) or is the initial segment 1; wal.Manager's own size-triggered rotation (ensureCapacity → rotateLocked → activeID+1) must not create ids the LSM will later hand out and truncate")
+	rl := c.Fn("wal", "Manager.rotateLocked")
+	ec := c.Fn("wal", "Manager.ensureCapacity")
+	if rl == nil || ec == nil {
+		return
+	}
+	selfAlloc := false
+	for _, s := range Calls(rl, false, Named("wal.(*Manager).switchSegmentLocked")) {
+		if bo, ok := s.Common().Args[1].(*ssa.BinOp); ok && bo.Op == token.ADD {
+			if k, ok := ConstInt(bo.Y); ok && k == 1 && isFieldLoad(bo.X, "wal.Manager", "activeID") {
+				selfAlloc = true
+			}
+		}
+	}
+	autoRotate := len(Calls(ec, false, Named("wal.(*Manager).rotateLocked"))) > 0
+	// DB.Open sizes the WAL segment from the memtable size?
+	sized := false
+	if op := c.Fn("", "Open"); op != nil {
+		AllInstrs(op, true, func(in ssa.Instruction) {
+			if st, ok := in.(*ssa.Store); ok {
+				if o, f, ok := FieldOf(st.Addr); ok && o == "wal.Config" && f == "SegmentSize" {
+					sized = true
+				}
+			}
+		})
+	}
+	c.Decide(!(selfAlloc && autoRotate) || sized, rule, key(ec, "single-segment-id-allocator"), ec.Pos(), 3, "the WAL does not allocate ids the LSM will reuse", "wal.Manager rotates on its own to activeID+1 when a segment exceeds its size (64 MiB, never configured by DB.Open) while lsm.NewMemtable allocates the next id from levels.maxFID and opens it with truncate=true: with MemTableSize above the segment size (or raft records sharing the WAL) the memtable's later records land in a segment that the next memtable truncates")
+}
